@@ -3,7 +3,7 @@ import random
 from props.loop_streams import *  # noqa: F401,F403
 from props import loop_streams as S
 
-OWN = {"1", "10", "11", "12", "13", "16", "17", "panic"}
+OWN = {"1", "10", "11", "12", "13", "16", "17", "18", "panic"}
 RULE = "timer scripts: two timers expiring in one batch with cancel/close/re-arm from the other's callback, timer vs I/O object in one batch, single-schedule rule, revive after close, non-positive delays, not-before-delay, repeating timers cancelled from inside/outside/closed; 20-60 ms delays with >= 10 ms margins; plus the I/O streams"
 
 
